@@ -1,0 +1,14 @@
+//go:build verif
+
+package piece
+
+// VerifYieldHook, when set, is called at named points where no lock is
+// held, so that a verification harness can decide which goroutine runs
+// next.
+var VerifYieldHook func(point string)
+
+func verifYield(point string) {
+	if h := VerifYieldHook; h != nil {
+		h(point)
+	}
+}
